@@ -118,23 +118,31 @@ def rule_a(ck, u):
             ck.broken('C13.a', fn + ':switch', '', 'function missing')
             continue
         ck.function(fn)
-        sw = [x for x in cast.walk(f) if cast.kind(x) == 'SwitchStmt']
-        if len(sw) != 1:
-            ck.broken('C13.a', fn + ':switch', cast.where(f), 'expected one switch over the prefix size')
+        # decided on the paths, so that a switch, an if-chain or a helper read the same: every call through
+        # kind[k].cb.<member>.<callback> is made under kind[k].size == <the member's width>, and each width has its call
+        try:
+            pps = sym.Engine(u, sizeof={}, inline=set()).paths(fn)
+        except (sym.Unsupported, sym.PathLimit) as e:
+            ck.broken('C13.a', fn + ':switch', cast.where(f), 'path enumeration: %s' % e)
             continue
         arms = {}
-        body = sw[0]['inner'][-1]
-        for s in cast.inner(body):
-            if cast.kind(s) == 'CaseStmt':
-                v = u.const_value(s['inner'][0])
-                calls = [c for c in cast.walk(s) if cast.kind(c) == 'CallExpr']
-                for c in calls:
-                    ch = cast.member_chain(cast.strip(c['inner'][0]))
-                    if ch[-1] == cbname:
-                        arms[v] = ch[-2]
+        odd = None
+        for p in pps:
+            for e in p.effects:
+                if e.kind != 'icall' or not e.chain or e.chain[-1] != cbname or len(e.chain) < 2:
+                    continue
+                member = e.chain[-2]
+                sizes = [c[3][1] for c in p.cond_terms() if c[0] == 'cmp' and c[1] == '==' and sym.is_c(c[3])
+                         and strip_cast(c[2])[0] == 'f' and strip_cast(c[2])[2] == 'size']
+                if len(set(sizes)) != 1:
+                    odd = 'the %s call through member %s is not made under one value of kind[k].size (%s)' % (cbname, member, sizes)
+                    continue
+                if arms.setdefault(sizes[0], member) != member:
+                    odd = 'size %d dispatches to members %s and %s' % (sizes[0], arms[sizes[0]], member)
         want = {1: 'u8', 2: 'u16', 4: 'u32'}
-        ck.verdict(arms == want, 'C13.a', fn + ':switch', cast.where(sw[0]),
-                   'size 1/2/4 dispatch to members u8/u16/u32' if arms == want else 'size -> member map is %s, expected %s' % (arms, want))
+        ok = arms == want and odd is None
+        ck.verdict(ok, 'C13.a', fn + ':switch', cast.where(f),
+                   'size 1/2/4 dispatch to members u8/u16/u32' if ok else (odd or 'size -> member map is %s, expected %s' % (arms, want)))
     # scratch arrays
     f = u.fn('decode_prefix')
     if f is not None:
